@@ -790,11 +790,19 @@ func c10clients(rep *vh.Report, seed uint64, idx int) {
 	}
 	defer upc.Close()
 	bport := freeUDPPort()
+	// the broadcast endpoint listens either on an explicit local address (not the one that would be derived) or, every
+	// other scenario, on the address derived from the broadcast address (the loopback interface: 127.0.0.1)
+	bhost := "127.0.0.2"
+	bconf := gomavlib.EndpointUDPBroadcast{BroadcastAddress: fmt.Sprintf("127.255.255.255:%d", bport), LocalAddress: fmt.Sprintf("127.0.0.2:%d", bport)}
+	if idx%2 == 1 {
+		bhost = "127.0.0.1"
+		bconf.LocalAddress = ""
+	}
 	node := &gomavlib.Node{
 		Endpoints: []gomavlib.EndpointConf{
 			gomavlib.EndpointTCPClient{Address: ln.Addr().String()},
 			gomavlib.EndpointUDPClient{Address: upc.LocalAddr().String()},
-			gomavlib.EndpointUDPBroadcast{BroadcastAddress: fmt.Sprintf("127.255.255.255:%d", bport), LocalAddress: fmt.Sprintf("127.0.0.1:%d", bport)},
+			bconf,
 		},
 		Dialect: testDialect, OutVersion: gomavlib.V2, OutSystemID: 79, HeartbeatPeriod: 20 * time.Millisecond, IdleTimeout: 5 * time.Second,
 	}
@@ -904,7 +912,7 @@ func c10clients(rep *vh.Report, seed uint64, idx int) {
 	wg.Add(1)
 	pr3 := r.Fork()
 	go func() {
-		bc, err := net.Dial("udp4", fmt.Sprintf("127.0.0.1:%d", bport))
+		bc, err := net.Dial("udp4", fmt.Sprintf("%s:%d", bhost, bport))
 		if err != nil {
 			wg.Done()
 			return
